@@ -578,4 +578,545 @@ theorem readRows_csvRegr {sep comment : Char} (hs : SepOk sep comment) (sci labe
     intro p _
     cases labelFirst <;> simp [toksOf, List.map_map, Function.comp_def]
 
+/-! ### class labels in the first column -/
+
+theorem parse_lexeme (skip : List Char → List Char) (a : G) (s : List Char) :
+    parse skip (.lexeme a) s = parse id a (skip s) := by simp only [parse]
+
+/-- the class-label grammar `lexeme[int_ >> -('.' >> *'0') >> !digit]` on a printed label followed by the separator -/
+theorem parse_label {sep comment : Char} (hs : SepOk sep comment) (l : Nat) (hl : l ≤ 2147483647) (X : List Char) :
+    parse (skipper (csvSkipper comment)) labelG (natDigits l ++ sep :: X) = .ok (sep :: X) [.int (l : Int)] := by
+  obtain ⟨c, t, hct, hc⟩ := natDigits_cons l
+  have hcc : c ≠ comment := by
+    rintro rfl
+    have := numChar_of_digit hc
+    rw [hs.comNum] at this; exact absurd this (by decide)
+  have hskip : skipper (csvSkipper comment) (natDigits l ++ sep :: X) = natDigits l ++ sep :: X := by
+    rw [hct, List.cons_append]; exact skipper_stay comment c _ (Or.inl (isDigit_not_space hc)) hcc
+  have hn := hs.sepNum
+  unfold numChar at hn
+  simp only [Bool.or_eq_false_iff, beq_eq_false_iff_ne] at hn
+  have hdig : isDigit sep = false := hn.1.1.1.1.1.1.1.1
+  have hdot : (sep == '.') = false := by simpa using hn.1.1.1.1.1.2
+  have hint := int_natDigits l (sep :: X) hl (noDigitHead_cons _ hdig)
+  unfold labelG
+  rw [parse_lexeme, hskip]
+  simp [parse, hint, hdot, hdig]
+
+theorem parse_sepcell {sep comment : Char} (hs : SepOk sep comment) {tok : List Char} {v' : Val} (ht : Tok tok v')
+    (rest : List Char) (hr : TokEnd rest) :
+    parse (skipper (csvSkipper comment)) (.seq (.lit sep) cellSepPoints) (sep :: (tok ++ rest)) = .ok rest [.val v'] := by
+  obtain ⟨c, t, hct, hsp, hcc⟩ := ht.head hs.comNum
+  have hskip : skipper (csvSkipper comment) (tok ++ rest) = tok ++ rest := by
+    rw [hct, List.cons_append]; exact skipper_stay comment c _ (Or.inl hsp) hcc
+  rw [parse_seq, parse_lit_sep hs]
+  simp only [cellSepPoints, parse, hskip, ht.read rest hr]
+  rfl
+
+theorem parse_sepcell_nl {sep comment : Char} (hs : SepOk sep comment) (x : List Char) :
+    parse (skipper (csvSkipper comment)) (.seq (.lit sep) cellSepPoints) ('\n' :: x) = .fail := by
+  rw [parse_seq, parse_lit_nl hs]
+
+/-- `(S tok)*` up to the line end, for an abstract element parser -/
+theorem starLoop_toks (P : List Char → Res) (sep : Char)
+    (hP : ∀ (tok : List Char) (v' : Val) (rest : List Char), Tok tok v' → TokEnd rest → P (sep :: (tok ++ rest)) = .ok rest [.val v'])
+    (hPnl : ∀ x, P ('\n' :: x) = .fail) (hsepEnd : ∀ t, TokEnd (sep :: t)) :
+    ∀ (toks : List (List Char × Val)) (f : Nat) (R : List Char) (acc : List Ev),
+      (∀ q ∈ toks, Tok q.1 q.2) →
+      ((toks.flatMap fun q => sep :: q.1) ++ '\n' :: R).length < f →
+      starLoop P f ((toks.flatMap fun q => sep :: q.1) ++ '\n' :: R) acc
+        = .ok ('\n' :: R) (acc ++ toks.map fun q => Ev.val q.2) := by
+  intro toks
+  induction toks with
+  | nil =>
+    intro f R acc _ hf
+    cases f with
+    | zero => simp at hf
+    | succ f => simp [starLoop, hPnl]
+  | cons q t ih =>
+    intro f R acc ht hf
+    cases f with
+    | zero => simp at hf
+    | succ f =>
+      have hend : TokEnd ((t.flatMap fun q => sep :: q.1) ++ '\n' :: R) := by
+        cases t with
+        | nil => exact tokEnd_nl R
+        | cons q' t' => simp only [List.flatMap_cons, List.cons_append]; exact hsepEnd _
+      have hcell := hP q.1 q.2 _ (ht q (by simp)) hend
+      have ih' := ih f R (acc ++ [Ev.val q.2]) (fun x hx => ht x (by simp [hx]))
+        (by simp only [List.flatMap_cons, List.cons_append, List.length_cons, List.length_append, List.append_assoc] at hf ⊢; omega)
+      simp only [List.flatMap_cons, List.cons_append, List.append_assoc, starLoop, hcell]
+      have hlt : ((t.flatMap fun q => sep :: q.1) ++ '\n' :: R).length
+          < (sep :: (q.1 ++ ((t.flatMap fun q => sep :: q.1) ++ '\n' :: R))).length := by
+        simp only [List.length_cons, List.length_append]; omega
+      simp only [hlt, if_true, ih']
+      simp
+
+/-- a labelled element as tokens: class label and the tokens of its inputs -/
+abbrev PointToks := Nat × List (List Char × Val)
+
+def pointBytes (sep : Char) (p : PointToks) : List Char := natDigits p.1 ++ (p.2.flatMap fun q => sep :: q.1)
+
+def pointEvents (p : PointToks) : List Ev := Ev.int (p.1 : Int) :: ((p.2.map fun x => Ev.val x.2) ++ [Ev.mark])
+
+def pointG (sep : Char) : G := .mark (.seq labelG (.star (.seq (.lit sep) cellSepPoints)))
+
+theorem parse_point {sep comment : Char} (hs : SepOk sep comment) (p : PointToks) (R : List Char)
+    (hl : p.1 ≤ 2147483647) (hne : p.2 ≠ []) (ht : ∀ x ∈ p.2, Tok x.1 x.2) :
+    parse (skipper (csvSkipper comment)) (pointG sep) (pointBytes sep p ++ '\n' :: R) = .ok ('\n' :: R) (pointEvents p) := by
+  obtain ⟨q, t, hqt⟩ : ∃ q t, p.2 = q :: t := by
+    cases h : p.2 with
+    | nil => exact absurd h hne
+    | cons q t => exact ⟨q, t, rfl⟩
+  have hlab := parse_label hs p.1 hl (q.1 ++ ((t.flatMap fun q => sep :: q.1) ++ '\n' :: R))
+  have hloop := starLoop_toks (parse (skipper (csvSkipper comment)) (.seq (.lit sep) cellSepPoints)) sep
+    (fun tok v' rest htok hr => parse_sepcell hs htok rest hr) (parse_sepcell_nl hs) hs.tokEnd_sep p.2
+    (((p.2.flatMap fun q => sep :: q.1) ++ '\n' :: R).length + 1) R [] ht (Nat.lt_succ_self _)
+  unfold pointG pointBytes pointEvents
+  rw [parse_mark, parse_seq]
+  rw [hqt] at hloop ⊢
+  simp only [List.flatMap_cons, List.cons_append, List.append_assoc] at hlab hloop ⊢
+  rw [hlab]
+  simp only [parse_star, hloop]
+  simp
+
+theorem parse_point_nil (sep comment : Char) : parse (skipper (csvSkipper comment)) (pointG sep) [] = .fail := by
+  have hr : Import.int [] = none := by decide
+  unfold pointG labelG
+  rw [parse_mark, parse_seq, parse_lexeme]
+  simp [parse, skipper_nil, hr]
+
+/-- `(eol >> line)*` over the remaining lines, for abstract lines -/
+theorem listLoop_lines {ρ : Type} (A S : List Char → Res) (bytes : ρ → List Char) (evs : ρ → List Ev) (ok : ρ → Prop)
+    (hS : ∀ x, S ('\n' :: x) = .ok x []) (hAnil : A [] = .fail)
+    (hA : ∀ (r : ρ) (R : List Char), ok r → A (bytes r ++ '\n' :: R) = .ok ('\n' :: R) (evs r)) :
+    ∀ (rows : List ρ) (f : Nat) (acc : List Ev),
+      (∀ r ∈ rows, ok r) → ('\n' :: rows.flatMap (fun r => bytes r ++ ['\n'])).length < f →
+      listLoop A S f ('\n' :: rows.flatMap (fun r => bytes r ++ ['\n'])) acc = .ok ['\n'] (acc ++ rows.flatMap evs) := by
+  intro rows
+  induction rows with
+  | nil =>
+    intro f acc _ hf
+    cases f with
+    | zero => simp at hf
+    | succ f => simp [listLoop, hS, hAnil]
+  | cons r t ih =>
+    intro f acc h hf
+    cases f with
+    | zero => simp at hf
+    | succ f =>
+      have hr := hA r (t.flatMap (fun r => bytes r ++ ['\n'])) (h r (by simp))
+      have ih' := ih f (acc ++ evs r) (fun x hx => h x (by simp [hx]))
+        (by simp only [List.flatMap_cons, List.length_cons, List.length_append] at hf ⊢; omega)
+      simp only [List.flatMap_cons, List.append_assoc, List.singleton_append, listLoop, hS, hr]
+      have hlt : ('\n' :: t.flatMap (fun r => bytes r ++ ['\n'])).length
+          < ('\n' :: (bytes r ++ '\n' :: t.flatMap (fun r => bytes r ++ ['\n']))).length := by
+        simp only [List.length_cons, List.length_append]; omega
+      simp only [hlt, if_true, ih']
+      simp
+
+theorem splitMarks_points (pts : List PointToks) (acc : List (List Ev)) :
+    Csv.splitMarks (pts.flatMap pointEvents) [] acc
+      = acc.reverse ++ pts.map (fun p => Ev.int (p.1 : Int) :: p.2.map fun x => Ev.val x.2) := by
+  induction pts generalizing acc with
+  | nil => simp [Csv.splitMarks]
+  | cons p t ih =>
+    have hmap : (p.2.map fun x => Ev.val x.2) = (p.2.map (·.2)).map Ev.val := by simp
+    simp only [List.flatMap_cons, pointEvents, List.cons_append, List.append_assoc, hmap, Csv.splitMarks]
+    rw [splitMarks_vals]
+    simp only [List.singleton_append, Csv.splitMarks, List.nil_append]
+    rw [ih]
+    simp [Function.comp_def]
+
+theorem labelOf_point (p : PointToks) : Csv.labelOf (Ev.int (p.1 : Int) :: p.2.map fun x => Ev.val x.2) = (p.1 : Int) := by
+  simp [Csv.labelOf]
+
+theorem valsOf_point (p : PointToks) : Csv.valsOf (Ev.int (p.1 : Int) :: p.2.map fun x => Ev.val x.2) = p.2.map (·.2) := by
+  have := valsOf_vals p.2
+  simp only [Csv.valsOf, List.filterMap_cons] at this ⊢
+  exact this
+
+/-- **the FIRST_COLUMN point reader of `csvStringToData` reads a printed file token by token** -/
+theorem readPointsFirst_print {sep comment : Char} (hs : SepOk sep comment) (p0 : PointToks) (rest : List PointToks)
+    (h : ∀ p ∈ p0 :: rest, p.1 ≤ 2147483647 ∧ p.2 ≠ [] ∧ ∀ x ∈ p.2, Tok x.1 x.2) :
+    Csv.readPointsFirst ((p0 :: rest).flatMap fun p => pointBytes sep p ++ ['\n']) sep comment
+      = some ((p0 :: rest).map fun p => ((p.1 : Int), p.2.map (·.2))) := by
+  have hws : Csv.wsSep sep = false := by
+    unfold Csv.wsSep
+    simp [hs.sepSpace, hs.sepNul]
+  have h0 := h p0 (by simp)
+  have hrow0 := parse_point hs p0 (rest.flatMap fun p => pointBytes sep p ++ ['\n']) h0.1 h0.2.1 h0.2.2
+  have hloop := listLoop_lines (parse (skipper (csvSkipper comment)) (pointG sep)) (parse (skipper (csvSkipper comment)) .eol)
+    (pointBytes sep) pointEvents (fun p => p.1 ≤ 2147483647 ∧ p.2 ≠ [] ∧ ∀ x ∈ p.2, Tok x.1 x.2)
+    (parse_eol_nl comment hs.comNl) (parse_point_nil sep comment)
+    (fun p R hp => parse_point hs p R hp.1 hp.2.1 hp.2.2)
+    rest (('\n' :: rest.flatMap (fun p => pointBytes sep p ++ ['\n'])).length + 1) (pointEvents p0)
+    (fun p hp => h p (by simp [hp])) (Nat.lt_succ_self _)
+  have hstar : parse (skipper (csvSkipper comment)) (.star .eol) ['\n'] = .ok [] [] := by
+    rw [parse_star]
+    simp only [List.length_cons, List.length_nil, starLoop, parse_eol_nl comment hs.comNl, parse_eol_nil]
+    simp
+  unfold Csv.readPointsFirst
+  simp only [hws, Bool.false_eq_true, if_false, phraseParse, pointsFirstSep]
+  have hg : G.mark (G.seq labelG (G.star (G.seq (G.lit sep) cellSepPoints))) = pointG sep := rfl
+  rw [hg, parse_seq, parse_list]
+  simp only [List.flatMap_cons, List.append_assoc, List.singleton_append, hrow0, hloop, hstar, skipper_nil]
+  have hsm := splitMarks_points (p0 :: rest) []
+  simp only [List.flatMap_cons, List.reverse_nil, List.nil_append] at hsm
+  simp only [List.append_nil]
+  rw [hsm, List.map_map]
+  congr 1
+  apply List.map_congr_left
+  intro p _
+  simp only [Function.comp, labelOf_point, valsOf_point]
+
+theorem sep_rowBytes (sep : Char) (toks : List (List Char × Val)) (hne : toks ≠ []) :
+    sep :: rowBytes sep toks = toks.flatMap fun q => sep :: q.1 := by
+  cases toks with
+  | nil => exact absurd rfl hne
+  | cons q t => simp [rowBytes]
+
+/-- **`exportCSV` (class labels, FIRST_COLUMN) → point reader, FROM BYTES** -/
+theorem readPointsFirst_csvClass {sep comment : Char} (hs : SepOk sep comment) (sci : Bool) (pts : List (Nat × List Val))
+    (hne : pts ≠ [])
+    (hpt : ∀ p ∈ pts, p.1 ≤ 2147483647 ∧ p.2 ≠ [] ∧ ∀ v ∈ p.2, isDouble v = true) :
+    ∃ bytes, csvClass pts true sep sci 0 = some bytes ∧
+      Csv.readPointsFirst bytes sep comment = some (pts.map fun p => ((p.1 : Int), p.2.map (reimportCsv sci))) := by
+  have hprint : csvClass pts true sep sci 0
+      = some ((pts.map fun p => ((p.1, toksOf sci p.2) : PointToks)).flatMap fun p => pointBytes sep p ++ ['\n']) := by
+    unfold csvClass
+    have hmap : (pts.map fun p =>
+        if p.2.isEmpty then none
+        else if true then some (natDigits p.1 ++ [sep] ++ csvCells sci 0 sep p.2 ++ ['\n'])
+        else some (csvCells sci 0 sep p.2 ++ [sep] ++ natDigits p.1 ++ ['\n']))
+        = (pts.map fun p => pointBytes sep (p.1, toksOf sci p.2) ++ ['\n']).map some := by
+      rw [List.map_map]
+      apply List.map_congr_left
+      intro p hp
+      have hp2 := (hpt p hp).2.1
+      have hemp : p.2.isEmpty = false := by
+        cases h : p.2 with
+        | nil => exact absurd h hp2
+        | cons a t => rfl
+      have htne : toksOf sci p.2 ≠ [] := by
+        unfold toksOf
+        cases h : p.2 with
+        | nil => exact absurd h hp2
+        | cons a t => simp
+      simp only [hemp, Bool.false_eq_true, if_false, if_true, Function.comp, pointBytes]
+      rw [csvCells_eq, ← sep_rowBytes sep _ htne]
+      simp [toksOf, List.append_assoc]
+    rw [hmap, concatOpt_some]
+    congr 1
+    rw [List.flatten_eq_flatMap, List.flatMap_map, List.flatMap_map]
+    simp only [id]
+  refine ⟨_, hprint, ?_⟩
+  obtain ⟨p0, rest, hrr⟩ : ∃ p0 rest, pts = p0 :: rest := by
+    cases pts with
+    | nil => exact absurd rfl hne
+    | cons a t => exact ⟨a, t, rfl⟩
+  subst hrr
+  have h := readPointsFirst_print hs ((p0.1, toksOf sci p0.2) : PointToks) (rest.map fun p => ((p.1, toksOf sci p.2) : PointToks))
+    (by
+      intro p hp
+      have hp2 : p ∈ (p0 :: rest).map (fun p => ((p.1, toksOf sci p.2) : PointToks)) := by simpa using hp
+      obtain ⟨p', hp', rfl⟩ := List.mem_map.mp hp2
+      obtain ⟨h1, h2, h3⟩ := hpt p' hp'
+      refine ⟨h1, ?_, ?_⟩
+      · unfold toksOf
+        cases hh : p'.2 with
+        | nil => exact absurd hh h2
+        | cons a t => simp
+      · intro x hx
+        obtain ⟨v, hv, rfl⟩ := List.mem_map.mp hx
+        exact tok_csvNum sci v (h3 v hv))
+  rw [List.map_cons, h]
+  simp [toksOf, List.map_map, Function.comp_def]
+
+/-! ### class labels in the last column: the record loop -/
+
+theorem parse_alt (skip : List Char → List Char) (a b : G) (s : List Char) :
+    parse skip (.alt a b) s = (match parse skip a s with
+      | .fail => parse skip b s
+      | r => r) := by simp only [parse]; cases parse skip a s <;> rfl
+
+theorem parse_plus (skip : List Char → List Char) (a : G) (s : List Char) :
+    parse skip (.plus a) s = (match parse skip a s with
+      | .ok r e => starLoop (parse skip a) (r.length + 1) r e
+      | .fail => .fail
+      | .hang => .hang) := by simp only [parse]; cases parse skip a s <;> rfl
+
+/-- the label grammar on a printed label followed by the line feed -/
+theorem parse_label_nl {comment : Char} (hcn : numChar comment = false) (hcl : comment ≠ '\n') (l : Nat) (hl : l ≤ 2147483647)
+    (X : List Char) :
+    parse (skipper (csvSkipper comment)) labelG (natDigits l ++ '\n' :: X) = .ok ('\n' :: X) [.int (l : Int)] := by
+  obtain ⟨c, t, hct, hc⟩ := natDigits_cons l
+  have hcc : c ≠ comment := by
+    rintro rfl
+    have := numChar_of_digit hc
+    rw [hcn] at this; exact absurd this (by decide)
+  have hskip : skipper (csvSkipper comment) (natDigits l ++ '\n' :: X) = natDigits l ++ '\n' :: X := by
+    rw [hct, List.cons_append]; exact skipper_stay comment c _ (Or.inl (isDigit_not_space hc)) hcc
+  have hint := int_natDigits l ('\n' :: X) hl (noDigitHead_cons _ (by decide))
+  unfold labelG
+  rw [parse_lexeme, hskip]
+  simp [parse, hint, isDigit]
+
+/-- `cell >> sep` on a token followed by the separator -/
+theorem parse_cellsep {sep comment : Char} (hs : SepOk sep comment) {tok : List Char} {v' : Val} (ht : Tok tok v')
+    (rest : List Char) :
+    parse (skipper (csvSkipper comment)) (.seq cellSepPoints (.lit sep)) (tok ++ sep :: rest) = .ok rest [.val v'] := by
+  obtain ⟨c, t, hct, hsp, hcc⟩ := ht.head hs.comNum
+  have hskip : skipper (csvSkipper comment) (tok ++ sep :: rest) = tok ++ sep :: rest := by
+    rw [hct, List.cons_append]; exact skipper_stay comment c _ (Or.inl hsp) hcc
+  rw [parse_seq]
+  simp only [cellSepPoints, parse_alt]
+  have h1 : parse (skipper (csvSkipper comment)) .real (tok ++ sep :: rest) = .ok (sep :: rest) [.val v'] := by
+    simp only [parse, hskip, ht.read _ (hs.tokEnd_sep rest)]
+  rw [h1]
+  simp only [parse_lit_sep hs]
+  rfl
+
+/-- `cell >> sep` fails on the label token (the label is followed by the line feed, not by the separator) -/
+theorem parse_cellsep_label {sep comment : Char} (hs : SepOk sep comment) (l : Nat) (X : List Char) :
+    parse (skipper (csvSkipper comment)) (.seq cellSepPoints (.lit sep)) (natDigits l ++ '\n' :: X) = .fail := by
+  obtain ⟨c, t, hct, hc⟩ := natDigits_cons l
+  have hcc : c ≠ comment := by
+    rintro rfl
+    have := numChar_of_digit hc
+    rw [hs.comNum] at this; exact absurd this (by decide)
+  have hskip : skipper (csvSkipper comment) (natDigits l ++ '\n' :: X) = natDigits l ++ '\n' :: X := by
+    rw [hct, List.cons_append]; exact skipper_stay comment c _ (Or.inl (isDigit_not_space hc)) hcc
+  have hd := natDigits_digits l
+  rw [hct] at hd
+  have hend : NumEnd ('\n' :: X) := by
+    intro c' t' hh; injection hh with h1 _; subst h1; decide
+  have hreal := real_int false c t ('\n' :: X) ('\n' :: X) 0 hd hend.noDigit (numEnd_not_dot hend) (exponent_none _ hend)
+  obtain ⟨x, hx⟩ := scaled_some false ((c :: t).foldl dval 0) 0 ('\n' :: X) (by decide) (by decide)
+  rw [hx] at hreal
+  have h1 : parse (skipper (csvSkipper comment)) .real (natDigits l ++ '\n' :: X) = .ok ('\n' :: X) [.val x] := by
+    have : real (c :: (t ++ '\n' :: X)) = some (x, '\n' :: X) := hreal
+    rw [hct, List.cons_append] at hskip
+    simp only [parse, hct, List.cons_append, hskip, this]
+  rw [parse_seq]
+  simp only [cellSepPoints, parse_alt, h1, parse_lit_nl hs]
+
+/-- `(cell >> sep)*` over `tok sep tok sep …`, stopping in front of the label -/
+theorem starLoop_cellsep (P : List Char → Res) (sep : Char) (l : Nat)
+    (hP : ∀ (tok : List Char) (v' : Val) (rest : List Char), Tok tok v' → P (tok ++ sep :: rest) = .ok rest [.val v'])
+    (hPlab : ∀ X, P (natDigits l ++ '\n' :: X) = .fail) :
+    ∀ (toks : List (List Char × Val)) (f : Nat) (R : List Char) (acc : List Ev),
+      (∀ q ∈ toks, Tok q.1 q.2) →
+      ((toks.flatMap fun q => q.1 ++ [sep]) ++ (natDigits l ++ '\n' :: R)).length < f →
+      starLoop P f ((toks.flatMap fun q => q.1 ++ [sep]) ++ (natDigits l ++ '\n' :: R)) acc
+        = .ok (natDigits l ++ '\n' :: R) (acc ++ toks.map fun q => Ev.val q.2) := by
+  intro toks
+  induction toks with
+  | nil =>
+    intro f R acc _ hf
+    cases f with
+    | zero => simp at hf
+    | succ f => simp [starLoop, hPlab]
+  | cons q t ih =>
+    intro f R acc ht hf
+    cases f with
+    | zero => simp at hf
+    | succ f =>
+      have hcell := hP q.1 q.2 ((t.flatMap fun q => q.1 ++ [sep]) ++ (natDigits l ++ '\n' :: R)) (ht q (by simp))
+      have ih' := ih f R (acc ++ [Ev.val q.2]) (fun x hx => ht x (by simp [hx]))
+        (by simp only [List.flatMap_cons, List.length_cons, List.length_append, List.append_assoc, List.length_nil] at hf ⊢; omega)
+      simp only [List.flatMap_cons, List.append_assoc, List.singleton_append, List.cons_append, List.nil_append, starLoop, hcell]
+      have hlt : ((t.flatMap fun q => q.1 ++ [sep]) ++ (natDigits l ++ '\n' :: R)).length
+          < (q.1 ++ sep :: ((t.flatMap fun q => q.1 ++ [sep]) ++ (natDigits l ++ '\n' :: R))).length := by
+        simp only [List.length_cons, List.length_append]; omega
+      simp only [hlt, if_true, ih']
+      simp
+
+/-- what follows a record: nothing, or the first token of the next record -/
+def RecStart (R : List Char) : Prop := R = [] ∨ ∃ c t, R = c :: t ∧ numChar c = true
+
+theorem starLoop_eol_stop {comment : Char} (hcn : numChar comment = false) (R : List Char) (hR : RecStart R) (e : List Ev) :
+    starLoop (parse (skipper (csvSkipper comment)) .eol) (R.length + 1) R e = .ok R e ∧ skipper (csvSkipper comment) R = R := by
+  rcases hR with rfl | ⟨c, t, rfl, hc⟩
+  · simp [starLoop, parse_eol_nil, skipper_nil]
+  · have hp := numChar_props hc
+    have hcc : c ≠ comment := by rintro rfl; rw [hcn] at hc; exact absurd hc (by decide)
+    have hsk := skipper_stay comment c t (Or.inl hp.1) hcc
+    have hm : matchEol (c :: t) = none := by
+      unfold matchEol
+      split
+      · rename_i heq; injection heq with h _; subst h; have := hp.1; simp [isSpace] at this
+      · rename_i heq; injection heq with h _; subst h; have := hp.1; simp [isSpace] at this
+      · rename_i heq; injection heq with h _; exact absurd h hp.2.1
+      · rfl
+    have hf : parse (skipper (csvSkipper comment)) .eol (c :: t) = .fail := by simp [parse, hsk, hm]
+    exact ⟨by simp [starLoop, hf], hsk⟩
+
+/-- a labelled element with the label last, as tokens -/
+def recBytes (sep : Char) (p : PointToks) : List Char := (p.2.flatMap fun q => q.1 ++ [sep]) ++ natDigits p.1
+
+def recEvents (p : PointToks) : List Ev := (p.2.map fun x => Ev.val x.2) ++ [Ev.int (p.1 : Int)]
+
+/-- one call of `phrase_parse` in the LAST_COLUMN loop reads one record and stops in front of the next -/
+theorem phraseParse_record {sep comment : Char} (hs : SepOk sep comment) (p : PointToks) (R : List Char)
+    (hl : p.1 ≤ 2147483647) (ht : ∀ x ∈ p.2, Tok x.1 x.2) (hR : RecStart R) :
+    phraseParse (pointLastSep sep) (csvSkipper comment) (recBytes sep p ++ '\n' :: R) = .ok R (recEvents p) := by
+  have hloop := starLoop_cellsep (parse (skipper (csvSkipper comment)) (.seq cellSepPoints (.lit sep))) sep p.1
+    (fun tok v' rest htok => parse_cellsep hs htok rest) (parse_cellsep_label hs p.1) p.2
+    (((p.2.flatMap fun q => q.1 ++ [sep]) ++ (natDigits p.1 ++ '\n' :: R)).length + 1) R [] ht (Nat.lt_succ_self _)
+  have hlab := parse_label_nl hs.comNum hs.comNl p.1 hl R
+  obtain ⟨hst, hsk⟩ := starLoop_eol_stop hs.comNum R hR []
+  unfold phraseParse pointLastSep recBytes recEvents
+  rw [parse_seq, parse_star]
+  simp only [List.append_assoc] at hloop ⊢
+  rw [hloop]
+  simp only [parse_seq, hlab, parse_alt, parse_plus, parse_eol_nl comment hs.comNl, hst, hsk]
+  simp
+
+theorem recStart_rec (sep : Char) (p : PointToks) (ht : ∀ x ∈ p.2, Tok x.1 x.2) (X : List Char) :
+    RecStart (recBytes sep p ++ X) := by
+  right
+  unfold recBytes
+  cases h : p.2 with
+  | nil =>
+    obtain ⟨c, t, hct, hc⟩ := natDigits_cons p.1
+    exact ⟨c, t ++ X, by simp [hct], numChar_of_digit hc⟩
+  | cons q t =>
+    have hq := ht q (by rw [h]; simp)
+    cases hq1 : q.1 with
+    | nil => exact absurd hq1 hq.ne
+    | cons c t' =>
+      refine ⟨c, _, by simp [hq1]; rfl, hq.chars c (by rw [hq1]; simp)⟩
+
+theorem labelOf_vals_int (vs : List (List Char × Val)) (i : Int) :
+    Csv.labelOf ((vs.map fun x => Ev.val x.2) ++ [Ev.int i]) = i := by
+  induction vs with
+  | nil => rfl
+  | cons a t ih => simpa [Csv.labelOf, List.find?] using ih
+
+theorem labelOf_rec (p : PointToks) : Csv.labelOf (recEvents p) = (p.1 : Int) := labelOf_vals_int p.2 _
+
+theorem valsOf_rec (p : PointToks) : Csv.valsOf (recEvents p) = p.2.map (·.2) := by
+  unfold recEvents
+  have := valsOf_vals p.2
+  simp only [Csv.valsOf, List.filterMap_append] at this ⊢
+  rw [this]; simp
+
+/-- **the hand-written LAST_COLUMN record loop reads a printed file record by record** -/
+theorem readPointsLastLoop_print {sep comment : Char} (hs : SepOk sep comment) :
+    ∀ (p : PointToks) (rest : List PointToks) (f : Nat) (acc : List (Int × List Val)),
+      (∀ x ∈ p :: rest, x.1 ≤ 2147483647 ∧ ∀ y ∈ x.2, Tok y.1 y.2) →
+      (((p :: rest).flatMap fun x => recBytes sep x ++ ['\n']).length < f) →
+      Csv.readPointsLastLoop (pointLastSep sep) (csvSkipper comment) f ((p :: rest).flatMap fun x => recBytes sep x ++ ['\n']) acc
+        = some (acc.reverse ++ (p :: rest).map fun x => ((x.1 : Int), x.2.map (·.2))) := by
+  intro p rest
+  induction rest generalizing p with
+  | nil =>
+    intro f acc h hf
+    cases f with
+    | zero => simp at hf
+    | succ f =>
+      have hrec := phraseParse_record hs p [] (h p (by simp)).1 (h p (by simp)).2 (Or.inl rfl)
+      simp only [List.flatMap_cons, List.flatMap_nil, List.append_nil, List.append_assoc, List.singleton_append,
+        Csv.readPointsLastLoop, hrec, labelOf_rec, valsOf_rec]
+      simp
+  | cons q t ih =>
+    intro f acc h hf
+    cases f with
+    | zero => simp at hf
+    | succ f =>
+      have hstart : RecStart ((q :: t).flatMap fun x => recBytes sep x ++ ['\n']) := by
+        simp only [List.flatMap_cons, List.append_assoc]
+        exact recStart_rec sep q (h q (by simp)).2 _
+      have hrec := phraseParse_record hs p ((q :: t).flatMap fun x => recBytes sep x ++ ['\n'])
+        (h p (by simp)).1 (h p (by simp)).2 hstart
+      have ih' := ih q f (((p.1 : Int), p.2.map (·.2)) :: acc) (fun x hx => h x (by simp [hx]))
+        (by simp only [List.flatMap_cons, List.length_append, List.length_cons, List.length_nil] at hf ⊢; omega)
+      have hne : ((q :: t).flatMap fun x => recBytes sep x ++ ['\n']).isEmpty = false := by
+        simp [List.flatMap_cons]
+      have hlt : ((q :: t).flatMap fun x => recBytes sep x ++ ['\n']).length
+          < (recBytes sep p ++ '\n' :: ((q :: t).flatMap fun x => recBytes sep x ++ ['\n'])).length := by
+        simp only [List.length_append, List.length_cons]; omega
+      have hshape : ((p :: q :: t).flatMap fun x => recBytes sep x ++ ['\n'])
+          = recBytes sep p ++ '\n' :: ((q :: t).flatMap fun x => recBytes sep x ++ ['\n']) := by
+        simp [List.flatMap_cons]
+      rw [hshape]
+      simp only [Csv.readPointsLastLoop, hrec, labelOf_rec, valsOf_rec, hne, Bool.false_eq_true, if_false, hlt, if_true, ih']
+      simp
+
+theorem rowBytes_sep (sep : Char) (toks : List (List Char × Val)) (hne : toks ≠ []) :
+    rowBytes sep toks ++ [sep] = toks.flatMap fun q => q.1 ++ [sep] := by
+  have := rowBytes_append_left sep toks toks hne
+  induction toks with
+  | nil => exact absurd rfl hne
+  | cons q t ih =>
+    cases t with
+    | nil => simp [rowBytes]
+    | cons q' t' =>
+      have h2 := ih (by simp) (rowBytes_append_left sep (q' :: t') (q' :: t') (by simp))
+      simp only [rowBytes, List.flatMap_cons, List.append_assoc] at h2 ⊢
+      rw [← h2]
+      simp
+
+/-- **`exportCSV` (class labels, LAST_COLUMN) → the record loop, FROM BYTES** -/
+theorem readPointsLast_csvClass {sep comment : Char} (hs : SepOk sep comment) (sci : Bool) (pts : List (Nat × List Val))
+    (hne : pts ≠ [])
+    (hpt : ∀ p ∈ pts, p.1 ≤ 2147483647 ∧ p.2 ≠ [] ∧ ∀ v ∈ p.2, isDouble v = true) :
+    ∃ bytes, csvClass pts false sep sci 0 = some bytes ∧
+      Csv.readPointsLast bytes sep comment = some (pts.map fun p => ((p.1 : Int), p.2.map (reimportCsv sci))) := by
+  have hprint : csvClass pts false sep sci 0
+      = some ((pts.map fun p => ((p.1, toksOf sci p.2) : PointToks)).flatMap fun p => recBytes sep p ++ ['\n']) := by
+    unfold csvClass
+    have hmap : (pts.map fun p =>
+        if p.2.isEmpty then none
+        else if false then some (natDigits p.1 ++ [sep] ++ csvCells sci 0 sep p.2 ++ ['\n'])
+        else some (csvCells sci 0 sep p.2 ++ [sep] ++ natDigits p.1 ++ ['\n']))
+        = (pts.map fun p => recBytes sep (p.1, toksOf sci p.2) ++ ['\n']).map some := by
+      rw [List.map_map]
+      apply List.map_congr_left
+      intro p hp
+      have hp2 := (hpt p hp).2.1
+      have hemp : p.2.isEmpty = false := by
+        cases h : p.2 with
+        | nil => exact absurd h hp2
+        | cons a t => rfl
+      have htne : toksOf sci p.2 ≠ [] := by
+        unfold toksOf
+        cases h : p.2 with
+        | nil => exact absurd h hp2
+        | cons a t => simp
+      simp only [hemp, Bool.false_eq_true, if_false, Function.comp, recBytes]
+      rw [csvCells_eq, ← rowBytes_sep sep _ htne]
+      simp [toksOf, List.append_assoc]
+    rw [hmap, concatOpt_some]
+    congr 1
+    rw [List.flatten_eq_flatMap, List.flatMap_map, List.flatMap_map]
+    simp only [id]
+  refine ⟨_, hprint, ?_⟩
+  obtain ⟨p0, rest, hrr⟩ : ∃ p0 rest, pts = p0 :: rest := by
+    cases pts with
+    | nil => exact absurd rfl hne
+    | cons a t => exact ⟨a, t, rfl⟩
+  subst hrr
+  have hws : Csv.wsSep sep = false := by
+    unfold Csv.wsSep
+    simp [hs.sepSpace, hs.sepNul]
+  unfold Csv.readPointsLast
+  simp only [hws, Bool.false_eq_true, if_false, List.map_cons]
+  have h := readPointsLastLoop_print hs ((p0.1, toksOf sci p0.2) : PointToks) (rest.map fun p => ((p.1, toksOf sci p.2) : PointToks))
+    ((((p0.1, toksOf sci p0.2) : PointToks) :: rest.map fun p => ((p.1, toksOf sci p.2) : PointToks)).flatMap
+      fun x => recBytes sep x ++ ['\n']).length.succ []
+    (by
+      intro p hp
+      have hp2 : p ∈ (p0 :: rest).map (fun p => ((p.1, toksOf sci p.2) : PointToks)) := by simpa using hp
+      obtain ⟨p', hp', rfl⟩ := List.mem_map.mp hp2
+      obtain ⟨h1, h2, h3⟩ := hpt p' hp'
+      refine ⟨h1, ?_⟩
+      intro x hx
+      obtain ⟨v, hv, rfl⟩ := List.mem_map.mp hx
+      exact tok_csvNum sci v (h3 v hv))
+    (Nat.lt_succ_self _)
+  rw [h]
+  simp [toksOf, List.map_map, Function.comp_def]
+
 end SharkVerif.Import.Export
